@@ -37,6 +37,7 @@ def reader_oracle(fn):
     return f
 
 
+EXACT_KINDS = None  # case kinds that have a model observation to compare with (None = all)
 KEEP_MSG = False   # only C17 compares the wording of error messages
 FIELDS = None      # record fields compared (None = all); set per property by the check script
 _FIELD = __import__('re').compile(r'(?<=[:/])([a-z])=[^:;/ ]*:?')
@@ -97,7 +98,7 @@ def _run_cases(res, fam, cases, oracle_fn, keep_growth, exact, post=None):
     for c, o, m, s in zip(cases, impl, model, spec):
         res.evaluations += 1
         co = project(o, keep_growth)
-        if exact and co != project(m, keep_growth):
+        if exact and (EXACT_KINDS is None or c[:1] in EXACT_KINDS) and co != project(m, keep_growth):
             if len(res.exact_diffs) < 50:
                 res.exact_diffs.append((c, o, m))
             else:
